@@ -247,15 +247,18 @@ INLINED_CLOSURE_CALLS = {}
 _CLOSURE_CALLS = ('core::ops::function::FnOnce::call_once', 'core::ops::function::FnMut::call_mut', 'core::ops::function::Fn::call')
 
 
-def inline_closure_calls(F, body, bodies=None, depth=0):
+def inline_closure_calls(F, body, bodies=None, depth=0, direct=True, changed=()):
     """`f()` where f is, after the helpers were spliced in, a closure written in this very body (a new helper took it as an
     `impl FnOnce` parameter): the closure's body is spliced in at the call, its environment bound to the closure value."""
     if depth > MAX_DEPTH:
         return body
     bodies = bodies or F.bodies
-    sites = [i for i, blk in enumerate(body['blocks']) if blk['t'].get('k') == 'call' and (blk['t'].get('f') or {}).get('fn') in _CLOSURE_CALLS
+    sites = [i for i, blk in enumerate(body['blocks']) if direct and blk['t'].get('k') == 'call' and (blk['t'].get('f') or {}).get('fn') in _CLOSURE_CALLS
              and len(blk['t'].get('args') or ()) == 2 and isinstance(blk['t'].get('t'), int)]
-    if not sites:
+    # `ord.then_with(|| ..)` whose closure hands the rest of a comparison to a new helper: the closure runs exactly when ord is Equal
+    tw = [i for i, blk in enumerate(body['blocks']) if changed and blk['t'].get('k') == 'call' and (blk['t'].get('f') or {}).get('fn') == 'core::cmp::Ordering::then_with'
+          and len(blk['t'].get('args') or ()) == 2 and isinstance(blk['t'].get('t'), int) and blk['t']['args'][0].get('k') in ('cp', 'mv')]
+    if not sites and not tw:
         return body
     from .core import B as _B
     W = _B(body)
@@ -283,6 +286,19 @@ def inline_closure_calls(F, body, bodies=None, depth=0):
         if by_ref != (t['f']['fn'] != _CLOSURE_CALLS[0]):
             continue
         todo.append((i, d, cb, n_par, agg))
+    for i in tw:
+        t = body['blocks'][i]['t']
+        try:
+            o = W.origin(t['args'][1])
+        except Exception:
+            continue
+        if not (o and o[0] == 'agg' and isinstance(o[1], dict) and o[1].get('ak') == 'closure' and o[1].get('def') in changed):
+            continue
+        d = o[1]['def']
+        cb = bodies.get(d) or F.bodies.get(d)
+        if cb is None or cb.get('argc', 1) != 1 or len(cb['blocks']) > MAX_BLOCKS:
+            continue
+        todo.append((i, d, cb, 'then_with', o[1]))
     if not todo:
         return body
     nb = dict(body)
@@ -295,7 +311,10 @@ def inline_closure_calls(F, body, bodies=None, depth=0):
         lo = len(nb['locals'])
         bo = len(nb['blocks'])
         nb['locals'] = nb['locals'] + [dict(l_) for l_ in cb['locals']]
-        env = copy.deepcopy(t['args'][0])
+        then_with = (n_par == 'then_with')
+        if then_with:
+            n_par = 0
+        env = copy.deepcopy(t['args'][1 if then_with else 0])
         if env.get('k') == 'mv':
             env['k'] = 'cp'
         pre = [{'k': '=', 'pl': {'l': lo + 1, 'p': None}, 'rv': {'k': 'use', 'op': env}, 'ln': t.get('ln'), 'inl': d}]
@@ -328,8 +347,18 @@ def inline_closure_calls(F, body, bodies=None, depth=0):
                 return [fix(v2) for v2 in x]
             return x
         ret_to, unw_to, dst = t['t'], t.get('u'), t['dst']
-        blk['s'] = blk['s'] + pre
-        blk['t'] = {'k': 'goto', 't': bo, 'ln': t.get('ln'), 'inl': d}
+        if then_with:
+            # switch on the ordering so far: Equal -> the closure, anything else -> that ordering
+            dl = len(nb['locals'])
+            nb['locals'] = nb['locals'] + [{'ty': 'isize', 'n': None}]
+            ordp = copy.deepcopy(t['args'][0]['pl'])
+            pre.append({'k': '=', 'pl': {'l': dl, 'p': None}, 'rv': {'k': 'discr', 'pl': ordp, 'ty': 'core::cmp::Ordering'}, 'ln': t.get('ln'), 'inl': d})
+            other = len(nb['blocks']) + len(cb['blocks'])
+            blk['s'] = blk['s'] + pre
+            blk['t'] = {'k': 'switch', 'd': {'k': 'mv', 'pl': {'l': dl, 'p': None}}, 'dty': 'isize', 'cases': [[0, bo]], 'else': other, 'ln': t.get('ln'), 'inl': d}
+        else:
+            blk['s'] = blk['s'] + pre
+            blk['t'] = {'k': 'goto', 't': bo, 'ln': t.get('ln'), 'inl': d}
         for cblk in cb['blocks']:
             ss = [fix(_ren(s_, lo, bo)) for s_ in cblk['s']]
             ct = cblk['t']
@@ -341,6 +370,9 @@ def inline_closure_calls(F, body, bodies=None, depth=0):
             else:
                 nt = fix(_ren_term(ct, lo, bo))
             nb['blocks'].append({'s': ss, 't': nt})
+        if then_with:
+            nb['blocks'].append({'s': [{'k': '=', 'pl': copy.deepcopy(dst), 'rv': {'k': 'use', 'op': {'k': 'cp', 'pl': copy.deepcopy(t['args'][0]['pl'])}}, 'ln': t.get('ln'), 'inl': d}],
+                                 't': {'k': 'goto', 't': ret_to, 'ln': t.get('ln'), 'inl': d}})
     nb['n_inlined'] = body.get('n_inlined', 0) + 1
     return nb
 
@@ -522,6 +554,26 @@ def thread_jumps(body, adts, max_rounds=6, max_new=400):
                         path.append(cur)
                         cur = t['t']
                         continue
+                # adapters that keep the variant: map_err / map / ok_or / as_ref ... of a value known to be Err (None, Ok, Some)
+                if t.get('k') == 'call' and t.get('args') and isinstance(t.get('t'), int) and not t['dst'].get('p') and cur != xi and cur not in path:
+                    fn_ = str((t.get('f') or {}).get('fn', ''))
+                    a0 = t['args'][0]
+                    last_ = fn_.rsplit('::', 1)[-1]
+                    if a0.get('k') in ('cp', 'mv') and not a0['pl'].get('p') and a0['pl']['l'] in env and env[a0['pl']['l']][0] == 'variant' \
+                            and (fn_.startswith('core::result::Result::<T, E>::') or fn_.startswith('core::option::Option::<T>::')):
+                        v_ = env[a0['pl']['l']][1]
+                        nv_ = None
+                        if last_ in ('map_err', 'map', 'as_ref', 'as_mut', 'copied', 'cloned', 'as_deref', 'inspect', 'inspect_err'):
+                            nv_ = v_
+                        elif last_ in ('ok_or', 'ok_or_else') and fn_.startswith('core::option::'):
+                            nv_ = 0 if v_ == 1 else 1
+                        elif last_ in ('ok', 'err') and fn_.startswith('core::result::'):
+                            nv_ = (1 if v_ == 0 else 0) if last_ == 'ok' else (1 if v_ == 1 else 0)
+                        if nv_ is not None:
+                            env[t['dst']['l']] = ('variant', nv_)
+                            path.append(cur)
+                            cur = t['t']
+                            continue
                 break
             if not found or added > max_new:
                 continue
@@ -577,9 +629,32 @@ def thread_jumps(body, adts, max_rounds=6, max_new=400):
             # the target is shared with other paths: the carried locals can still be renamed on this path when nothing
             # after the target looks at them (the None arm of an `if let Some(..)` does not look at the option)
             region = set()
-            after = reach(tgt)
-            txt = {b_: json.dumps({'s': [st for st in blocks[b_]['s'] if st.get('k') not in ('live', 'dead')], 't': blocks[b_]['t']}) for b_ in after}
-            locs = set(l_ for l_ in locs if not any(('"l": %d}' % l_) in t_ or ('"l": %d,' % l_) in t_ or ('"idx": %d' % l_) in t_ for t_ in txt.values()))
+
+            def mentioned(start, ls):
+                after = reach(start)
+                txt = [json.dumps({'s': [st for st in blocks[b_]['s'] if st.get('k') not in ('live', 'dead')], 't': blocks[b_]['t']}) for b_ in after]
+                return set(l_ for l_ in ls if any(('"l": %d}' % l_) in t_ or ('"l": %d,' % l_) in t_ or ('"idx": %d' % l_) in t_ for t_ in txt))
+            # the arm the constant selects usually still looks at the value (`(r as Break).0` of an error on its way out): the arm's
+            # straight-line blocks are duplicated for this path too, until nothing further on mentions the carried locals
+            cur_, ext, seen_ = tgt, [], set()
+            still = mentioned(cur_, locs)
+            while still and len(ext) < 8 and added <= max_new:
+                tb = blocks[cur_]
+                tt = tb['t']
+                if cur_ in seen_ or tt.get('k') not in ('goto', 'falseedge', 'drop', 'call') or not isinstance(tt.get('t'), int):
+                    break
+                seen_.add(cur_)
+                ni = len(blocks)
+                blocks.append({'s': [dict(s_) for s_ in tb['s']], 't': dict(tt)})
+                added += 1
+                prev = blocks[ext[-1] if ext else E_]
+                prev['t'] = dict(prev['t'])
+                prev['t']['t'] = ni
+                ext.append(ni)
+                cur_ = tt['t']
+                still = mentioned(cur_, locs)
+            clones = list(clones) + ext
+            locs = set(l_ for l_ in locs if l_ not in still)
             if not locs:
                 continue
         mapping = {}
@@ -861,8 +936,14 @@ def normalise(F):
         nb_ = inline_into(F, b, newset, (), 0, alias) if b.get('crate') in WS else b
         if b.get('crate') in WS and coros and p not in coros:
             nb_ = inline_awaits(F, nb_, coros)
+        out[p] = nb_
+    changed = {p for p in out if out[p] is not F.bodies.get(p)}
+    for p in list(out):
+        b = F.bodies[p]
+        if b.get('crate') not in WS:
+            continue
+        nb_ = inline_closure_calls(F, out[p], bodies=out, direct=(p in changed), changed=changed)
         if nb_ is not b:
-            nb_ = inline_closure_calls(F, nb_)
             nb_ = fold_constant_switches(nb_)
             nb_ = thread_jumps(nb_, F.adts)
             nb_ = split_webs(nb_)
